@@ -634,6 +634,9 @@ fn check(
 }
 
 pub fn run_op(ctx: &mut Ctx, op: &str) {
+    if ctx.hang_limit_reached() {
+        return;
+    }
     let Some((medit, threads, nn, blocks)) = parse_op(op) else {
         ctx.record(op.to_string(), "bad-op".into(), false);
         return;
